@@ -11,6 +11,8 @@ Proof. unfold len. simpl length. lia. Qed.
 Lemma len_app a b : len (a ++ b) = len a + len b.
 Proof. unfold len. rewrite app_length. lia. Qed.
 Lemma len_nonneg l : 0 <= len l. Proof. unfold len. lia. Qed.
+Lemma frev_rev l : frev l = rev l.
+Proof. unfold frev. symmetry. apply rev_alt. Qed.
 Lemma len_rev l : len (rev l) = len l. Proof. unfold len. rewrite rev_length. reflexivity. Qed.
 Lemma len_firstn k l : 0 <= k <= len l -> len (firstn (Z.to_nat k) l) = k.
 Proof. unfold len. intros H. rewrite firstn_length. lia. Qed.
@@ -350,9 +352,9 @@ Proof. split; fs; [auto|]. destruct (err s =? 0) eqn:E; lia. Qed.
 Lemma sticky_trace s : sticky s (trace s).
 Proof. split; fs; auto. Qed.
 
-Lemma sticky_flush all s : sticky s (flushc C all s).
+Lemma sticky_flush_body all s :
+  sticky s (match md s with Fixed => flush_fixed s | Dynamic => flush_dyn C s | File => flush_file all s end).
 Proof.
-  unfold flushc. cbv zeta. eapply sticky_trans; [apply sticky_trace|]. generalize (trace s). clear s. intros s.
   destruct (md s).
   - unfold flush_fixed. destruct (fsz s <=? p s).
     + eapply sticky_trans; [|apply sticky_poke0]. split; fs; [auto|].
@@ -363,6 +365,11 @@ Proof.
     + eapply sticky_trans; [|apply sticky_poke0]. split; fs; [apply wr_false|auto].
   - unfold flush_file. destruct (negb all && (fsz s <=? p s));
       (eapply sticky_trans; [|apply sticky_poke0]); split; fs; auto.
+Qed.
+
+Lemma sticky_flush all s : sticky s (flushc C all s).
+Proof.
+  unfold flushc. cbv zeta. eapply sticky_trans; [apply sticky_trace|]. apply sticky_flush_body.
 Qed.
 
 Lemma sticky_check s : sticky s (check C s).
@@ -405,19 +412,7 @@ Proof. intros H. exact H. Qed.
 Lemma K_flush all s t : K s t -> K (flushc C all s) t.
 Proof.
   intros H. unfold flushc. cbv zeta. apply K_trace in H. revert H. generalize (trace s). clear s. intros s H.
-  assert (G : sticky s (match md s with Fixed => flush_fixed s | Dynamic => flush_dyn C s | File => flush_file all s end)).
-  { pose proof (sticky_flush all s) as G. unfold flushc in G. cbv zeta in G.
-    (* the same function applied to s instead of trace s: redo by cases *)
-    clear G. destruct (md s).
-    - unfold flush_fixed. destruct (fsz s <=? p s).
-      + eapply sticky_trans; [|apply sticky_poke0]. split; fs; [auto|].
-        destruct (err s =? 0) eqn:E; [unfold PE_overflow|]; lia.
-      + apply sticky_poke0.
-    - unfold flush_dyn. destruct (p s <? fsz s).
-      + apply sticky_poke0.
-      + eapply sticky_trans; [|apply sticky_poke0]. split; fs; [apply wr_false|auto].
-    - unfold flush_file. destruct (negb all && (fsz s <=? p s));
-        (eapply sticky_trans; [|apply sticky_poke0]); split; fs; auto. }
+  pose proof (sticky_flush_body all s) as G.
   apply K_sticky_vacuous with s; [exact G|]. intros Hv He.
   destruct (H Hv He) as [A B]. destruct (md s).
   - unfold flush_fixed. apply K_poke0. destruct (fsz s <=? p s).
@@ -810,7 +805,7 @@ Proof.
   destruct (K_run C ops _ [] s' (init_K C m sz) E Hv He) as [A B0]. rewrite app_nil_l in *.
   pose proof (B_run C ops _ s' (init_B C m sz) E) as HB.
   destruct (M_run C ops _ s' E) as [Hm _]. rewrite init_md in Hm.
-  unfold observe. cbn [r_text r_ret]. rewrite A, rev_involutive, He. cbn [Z.eqb]. repeat split; auto.
+  unfold observe. cbn [r_text r_ret]. rewrite frev_rev, A, rev_involutive, He. cbn [Z.eqb]. repeat split; auto.
   - destruct (HB ltac:(congruence)) as [O T]. rewrite O, app_nil_r in A. exact A.
   - destruct (HB ltac:(congruence)) as [O T]. rewrite (T He) in B0. lia.
   - apply HB. congruence.
